@@ -32,7 +32,7 @@ def plan(tier, seed):
 
 
 def deep_or_wide(rng, g):
-    """Shapes the random generator rarely reaches: a chain of 20-40 nested actions, or one action with 100-160 children."""
+    """Shapes the random generator rarely reaches: a chain of 20-40 nested actions, or one action with 100-400 children."""
     if rng.random() < 0.5:
         node = g.msg()
         for _ in range(rng.randint(20, 40)):
@@ -45,7 +45,7 @@ def deep_or_wide(rng, g):
     a = g.act(99, force_style="with")
     a["outcome"] = "ok"
     a.pop("exc", None)
-    a["children"] = [g.msg() for _ in range(rng.randint(100, 160))]
+    a["children"] = [g.msg() for _ in range(rng.choice([rng.randint(100, 160), rng.randint(250, 270), rng.randint(300, 400)]))]
     return [a]
 
 
